@@ -32,7 +32,10 @@ lark reads it: contextual scanner with the per-state terminal order of the real 
 `DO` folded into `ID` and re-typed on a whole match, the merged scanner after every point / orientation / `DO` statement,
 ORIENTATION with look-ahead, NUMBER / SIGNED_NUMBER / STRING as their expressions; then `DefFile.ok` = the `int()` calls of
 `DefTransformer`): `def_text_roundtrip` — `parseDef (printDef f) = some f` for every valid syntax tree; `def_text_roundtrip_tree`
-(grammar alone), `def_text_valid_ok`.  `DefFile.netsRouted` hands the ROUTED wires of every net to the routing model above.
+(grammar alone), `def_text_valid_ok`.  `DefFile.netsRouted` hands the wires of ALL wiring statements of every net (`+ COVER | FIXED |
+ROUTED | NOSHIELD`, file order — the repaired code, D35) to the routing model above: `wiring_concat`, `wiring_part`,
+`wiring_none_lost`, `routed_handover`, `routed_two_statements`; the width conversion is partial (`toWire_isSome_iff`: no record when
+`int(width)` raises); `wiring_last_only_loses` = what the `setattr` of the tree before D35 lost (audit finding 4).
 **Correspondence, text level (harness/c20.py, sampled):** the model reader (driver `defparse`) against the real lark grammar — parse
 tree with ALL tokens kept, every rule and every token text — and the real `def_file.parse` (accept / raise) on generated files,
 hand-written corner cases (missing blanks, `(10`, `NEWVIA`, `3;`, escaped strings, comments) and mutated texts; for generated
@@ -399,13 +402,88 @@ def exText : DefFile :=
 example : exText.valid = true := by decide +kernel
 example : parseDef (printDef exText) = some exText := def_text_roundtrip exText (by decide +kernel)
 
-/-- hand-over to the routing model: the ROUTED wires of regular net `n1` of `exText` as `KV.Def.Wire` records, and what
-the routing theorems above say about them (`*` resolved, third value carried, vias at the last point) -/
+/-! ### hand-over to the routing model: every wiring statement of a net, in file order (audit finding 4, repair D35) -/
+
+/-- the wires handed over are those of ALL wiring statements (`+ COVER | FIXED | ROUTED | NOSHIELD`), statement after
+statement in file order: the collection distributes over the parts of the net statement … -/
+theorem wiring_concat (name : Txt) (p q : List NetPart) :
+    TNet.wiresT ⟨name, p ++ q⟩ = TNet.wiresT ⟨name, p⟩ ++ TNet.wiresT ⟨name, q⟩ := by
+  simp [TNet.wiresT]
+
+/-- … a wiring statement contributes exactly its wires, pins and options contribute nothing … -/
+theorem wiring_part (name : Txt) (k : Kw) (ws : List TWire) (a b v : Txt) (ko : Kw) :
+    TNet.wiresT ⟨name, [.wiring k ws]⟩ = ws ∧ TNet.wiresT ⟨name, [.pin a b]⟩ = [] ∧ TNet.wiresT ⟨name, [.opt ko v]⟩ = [] := by
+  simp [TNet.wiresT]
+
+/-- … so no wire of any wiring statement is lost: around the statement `+ k ws` the list is (wires before) ++ ws ++ (wires after) -/
+theorem wiring_none_lost (name : Txt) (p q : List NetPart) (k : Kw) (ws : List TWire) :
+    TNet.wiresT ⟨name, p ++ .wiring k ws :: q⟩ = TNet.wiresT ⟨name, p⟩ ++ ws ++ TNet.wiresT ⟨name, q⟩ := by
+  simp [TNet.wiresT]
+
+/-- The record handed to the routing model exists exactly when every listed width is an integer token (`int(width)` of
+`DefNet.wires` does not raise); it is never a made-up number. -/
+theorem toWire_isSome_iff (sp : Bool) (w : TWire) :
+    (w.toWire sp).isSome = true ↔ ∀ t, w.width = some t → intOK t = true := by
+  unfold TWire.toWire
+  cases hw : w.width with
+  | none => simp
+  | some t => by_cases h : intOK t = true <;> simp [h]
+
+/-- `dnet.routed` as the routing model receives it: one record per wire of every wiring statement, in order (index-aligned
+with `wiresT`), each the conversion of its wire -/
+theorem routed_handover (sp : Bool) (n : TNet) (W : List Wire) (h : n.routed sp = some W) :
+    W.length = n.wiresT.length ∧ ∀ i (hi : i < n.wiresT.length), (n.wiresT[i]).toWire sp = W[i]? := by
+  unfold TNet.routed at h
+  rw [allSome_eq_some] at h
+  have hl : W.length = n.wiresT.length := by
+    have := congrArg List.length h; simpa using this.symm
+  refine ⟨hl, ?_⟩
+  intro i hi
+  have := congrArg (fun l => l[i]?) h
+  simp only [List.getElem?_map] at this
+  rw [List.getElem?_eq_getElem hi] at this
+  simp only [Option.map_some] at this
+  have hi' : i < W.length := by omega
+  rw [List.getElem?_eq_getElem hi'] at this ⊢
+  simpa using this
+
+/-- … hence the per-layer / per-type listings of the net are those of the concatenation (with `agg_wires_append`,
+`agg_vias_append`): for two wiring statements the listing of the net is built from the wires of the first followed by the
+wires of the second. -/
+theorem routed_two_statements (sp : Bool) (name : Txt) (k1 k2 : Kw) (ws1 ws2 : List TWire) (W1 W2 : List Wire)
+    (h1 : TNet.routed sp ⟨name, [.wiring k1 ws1]⟩ = some W1) (h2 : TNet.routed sp ⟨name, [.wiring k2 ws2]⟩ = some W2) :
+    TNet.routed sp ⟨name, [.wiring k1 ws1, .wiring k2 ws2]⟩ = some (W1 ++ W2) := by
+  unfold TNet.routed at *
+  rw [allSome_eq_some] at *
+  simp only [TNet.wiresT, List.flatMap_cons, List.flatMap_nil, List.append_nil, List.map_append] at *
+  rw [h1, h2]
+
+/-- the reading of the tree before D35 (`setattr`: last `+ ROUTED` statement only) loses wires: the auditor's witness
+(`+ ROUTED m1 .. + ROUTED m2 ..`: the m1 segment is gone) and a `+ FIXED` statement (never listed) -/
+theorem wiring_last_only_loses :
+    let w1 : TWire := ⟨t "m1", some (t "100"), [], .none, none, pt (some "0") (some "0"), [.pt (pt (some "50") none)]⟩
+    let w2 : TWire := ⟨t "m2", some (t "100"), [], .none, none, pt (some "0") (some "0"), [.pt (pt none (some "70"))]⟩
+    TNet.wiresTOld ⟨t "VDD", [.wiring .Routed [w1], .wiring .Routed [w2]]⟩ = [w2]
+    ∧ TNet.wiresT ⟨t "VDD", [.wiring .Routed [w1], .wiring .Routed [w2]]⟩ = [w1, w2]
+    ∧ TNet.wiresTOld ⟨t "VDD", [.wiring .Fixed [w1]]⟩ = []
+    ∧ TNet.wiresT ⟨t "VDD", [.wiring .Fixed [w1]]⟩ = [w1] := by decide +kernel
+
+/-- `int("1.5")` raises in `DefNet.wires`: no record (the former totalisation gave width 105) -/
+example : (TWire.toWire true ⟨t "m1", some (t "1.5"), [], .none, none, pt (some "0") (some "0"), [.pt (pt (some "50") none)]⟩) = none
+    ∧ ((TWire.toWire true ⟨t "m1", some (t "15"), [], .none, none, pt (some "0") (some "0"), [.pt (pt (some "50") none)]⟩).map (·.width))
+        = some (some 15) := by decide +kernel
+
+/-- regular net `n1` of `exText` (`+ ROUTED` with two wires, `+ USE`, `+ NOSHIELD` with one wire): all three wires are
+handed over in file order, and what the routing theorems above say about them (`*` resolved, third value carried, vias at
+the last point; the via `v2` of the NOSHIELD wire is listed behind that of the ROUTED wire) -/
 def exRouted : Option (List Wire) := (exText.netsRouted.find? (·.2.1 == t "n1")).bind (·.2.2)
-example : exRouted.map (·.map (·.layer)) = some ["metal1", "metal2"]
+example : exRouted.map (·.map (·.layer)) = some ["metal1", "metal2", "m3"]
     ∧ exRouted.map (fun ws => (ws.headD default).wirePoints.map (fun p => (p.x, p.y))) = some [(0, 0), (5, 0), (5, 0)]
     ∧ exRouted.map netViasD
-      = some [("via1_0", [(5, 0, "FS")]), ("v3", [(5, 0, "N")]), ("v4", [(5, 0, "N")]), ("v2", [(1, 1, "N")])] := by
+      = some [("via1_0", [(5, 0, "FS")]), ("v3", [(5, 0, "N")]), ("v4", [(5, 0, "N")]), ("v2", [(1, 1, "N"), (1, 1, "N")])] := by
+  decide +kernel
+/-- hypotheses of `routed_two_statements` / `routed_handover` are satisfiable: the two statements of `n1` -/
+example : (TNet.routed false ⟨t "n1", [.wiring .Noshield [⟨t "m3", none, [], .none, some (t "0"), pt (some "1") (some "1"), [.via (t "v2") (some (t "N"))]⟩]]⟩).isSome = true := by
   decide +kernel
 
 /-- the reader on texts the printer does not produce: no blank before `;` after a NUMBER, a comment, `(10` after a point
